@@ -37,6 +37,9 @@ fn all_distractors(n_terms: usize) -> Vec<Distractor> {
         Distractor::HpoaFilledColumns,
         Distractor::HpoaMinimalColumns,
         Distractor::NoHeaderBlock,
+        Distractor::TagsBeforeName,
+        Distractor::GeneHeaderLong(20_000),
+        Distractor::HpoaCommentLong(20_000),
     ]
 }
 
@@ -87,7 +90,7 @@ pub fn run(ctx: &mut Ctx) {
         "release years have four digits".into(),
     ];
     let family: Vec<(Facts, String)> = format_family(if thorough { 4 } else { 4 }, if thorough { 1 } else { 6 }).into_iter().map(|(f, w)| (textual(&f), w)).collect();
-    ctx.space("family/orders-and-single-distractors", &format!("{} fact sets x (all stanza orders + gene-row orders + disease-row orders + is_a lines reversed + 25 single distractors) x from_standard, a subset also through from_standard_transitive; differential against Builder and binary", family.len()));
+    ctx.space("family/orders-and-single-distractors", &format!("{} fact sets x (all stanza orders + gene-row orders + disease-row orders + is_a lines reversed + 28 single distractors) x from_standard, a subset also through from_standard_transitive; differential against Builder and binary", family.len()));
     for (f, what) in &family {
         if !ctx.take() {
             continue;
@@ -168,18 +171,40 @@ pub fn run(ctx: &mut Ctx) {
             let mut o = JaxOpts::default();
             o.distractors = vec![d.clone()];
             with_opts(ctx, f, &o, false, &format!("distractor {d:?}"));
-            if matches!(d, Distractor::GeneHeader(_) | Distractor::GeneTrailingColumns | Distractor::GeneMinimalColumns | Distractor::Typedef(_) | Distractor::ExtraTags | Distractor::TagsBetweenIsA | Distractor::ExplicitNotObsolete | Distractor::HpoaFilledColumns | Distractor::HpoaMinimalColumns | Distractor::NoHeaderBlock) {
+            if matches!(d, Distractor::GeneHeader(_) | Distractor::GeneTrailingColumns | Distractor::GeneMinimalColumns | Distractor::Typedef(_) | Distractor::ExtraTags | Distractor::TagsBetweenIsA | Distractor::ExplicitNotObsolete | Distractor::HpoaFilledColumns | Distractor::HpoaMinimalColumns | Distractor::NoHeaderBlock | Distractor::TagsBeforeName | Distractor::GeneHeaderLong(_) | Distractor::HpoaCommentLong(_)) {
                 with_opts(ctx, f, &o, true, &format!("distractor {d:?} (transitive loader)"));
             }
         }
         ctx.sample(|| json!({"family": what, "facts": f.to_json(), "hp.obo": jax::render(f, &JaxOpts::default()).obo}));
     }
 
+    // ---- long lines: header / comment lines around the sizes of I/O buffers (a line is a line, however long)
+    {
+        let sizes: Vec<usize> = vec![79, 80, 81, 4095, 4096, 4097, 8190, 8191, 8192, 8193, 8194, 16_384, 16_385, 65_536, 100_000];
+        let pick: Vec<&(Facts, String)> = family.iter().filter(|(f, _)| f.anns.iter().any(|a| a.kind == Kind::Gene) && f.anns.iter().any(|a| a.kind != Kind::Gene)).take(3).collect();
+        ctx.space("bases/long-lines", &format!("{} base fact sets x gene-file header line / hpoa comment line of {:?} bytes x both loaders", pick.len(), sizes));
+        for (f, what) in pick {
+            for &len in &sizes {
+                if !ctx.take() {
+                    continue;
+                }
+                ctx.state();
+                ctx.nontrivial();
+                for d in [Distractor::GeneHeaderLong(len), Distractor::HpoaCommentLong(len)] {
+                    let mut o = JaxOpts::default();
+                    o.distractors = vec![d.clone()];
+                    with_opts(ctx, f, &o, false, &format!("{d:?}"));
+                    with_opts(ctx, f, &o, true, &format!("{d:?} (transitive loader)"));
+                }
+                ctx.sample(|| json!({"family": what, "line_bytes": len}));
+            }
+        }
+    }
     // ---- pairs of distractors on base fact sets that have every record kind
     let bases: Vec<&(Facts, String)> = family.iter().filter(|(f, _)| [Kind::Gene, Kind::Omim, Kind::Orpha].iter().all(|k| f.anns.iter().any(|a| a.kind == *k)) && f.terms.len() >= 3).collect();
     let step = (bases.len() / if thorough { 40 } else { 10 }).max(1);
     let bases: Vec<&(Facts, String)> = bases.into_iter().step_by(step).collect();
-    ctx.space("bases/pairs-of-distractors", &format!("{} base fact sets x all 300 unordered pairs of distractors x both loaders", bases.len()));
+    ctx.space("bases/pairs-of-distractors", &format!("{} base fact sets x all 378 unordered pairs of distractors x both loaders", bases.len()));
     for (f, what) in bases {
         let ds = all_distractors(f.terms.len());
         for i in 0..ds.len() {
